@@ -85,6 +85,13 @@ def reject_cases(lw, rng, c, nn):
         ("mode_out_of_range", lambda: c.add(her_small, n_big)),
         ("plus_size", lambda: c + child_big),
         ("add_non_circuit", lambda: c.add(np.eye(2), 0)),
+        # a mode number wrapped in a one-element array is refused - and the caller's array must come back as it went in
+        ("array_as_mode", lambda: c.ps(np.array([nn - 1]), 0.3)),
+        ("array_as_mode", lambda: c.bs(np.array([max(nn - 2, 0)]))),
+        ("array_as_mode", lambda: c.loss(np.array([nn - 1]), 0.1)),
+        ("array_as_mode", lambda: c.add(small, np.array([max(nn - 2, 0)]))),
+        ("array_as_mode", lambda: c.herald(0, np.array([nn - 1]))),
+        ("array_as_mode", lambda: c.barrier([np.array([nn - 1])])),
     ]
     return out
 
@@ -244,6 +251,13 @@ def reuse_history(ctx, lw, rng):
             tot.compress_mode_swaps()
             tot2 = other + x
             tot2.compress_mode_swaps()
+            # sums with an *empty* circuit, extended afterwards: the operand must not follow
+            for tot3 in (lw.Circuit(nnx) + x, x + lw.Circuit(nnx)):
+                tot3.ps(0, 0.77)
+                if nnx >= 2:
+                    tot3.bs(0, 1, 0.31)
+                    tot3.mode_swaps({0: 1, 1: 0})
+            ctx.bucket("sum_with_empty_circuit_extended")
         ctx.bucket("copies_and_sums_rewritten")
         if circmon.circuit_fingerprint(x, with_unitary=True) != fp_x:
             ctx.violation("rewriting a copy / a sum of a circuit changed the circuit itself", case={"history": hist},
